@@ -32,6 +32,11 @@ def run_cases(ctx, mod, only=None, final=True, flush_to=None):
     if hasattr(mod, 'setup'):
         mod.setup(ctx)
     try:
+        from . import frozen_targets
+        frozen_targets.install_for(ctx, ctx.prop)
+    except Exception as exc:
+        ctx.count('frozen-monitors-not-installed:%s' % type(exc).__name__)
+    try:
         from . import coverage_targets
         coverage_targets.install_for(ctx, ctx.prop)
     except Exception as exc:                     # a coverage monitor that cannot be installed decides nothing
